@@ -79,26 +79,35 @@ class Scratch:
 # ------------------------------------------------------------------------------------------------ go driver
 
 def build_driver(area):
-    """(re)build the Go driver of one area (harness/cmd/<area>) against /repo's current working tree,
-    hooks enabled (-tags verif). Returns the path of the binary."""
+    """(re)build the Go driver of one area (harness/cmd/<area>) against the repository's current working tree
+    (/repo, or $VERIF_REPO for mutant testing in a scratch copy), hooks enabled (-tags verif). Returns the binary path.
+    With VERIF_REPO set, the harness is built in a private copy so that concurrent runs against different trees
+    do not disturb each other."""
     pkg, out = "./cmd/" + area, "drv_" + area
-    os.makedirs(BUILD, exist_ok=True)
-    gosum = os.path.join(HARNESS, "go.sum")
+    hdir, bdir = HARNESS, BUILD
+    if os.path.realpath(REPO) != "/repo":
+        tag = hashlib.sha1(os.path.realpath(REPO).encode()).hexdigest()[:8]
+        hdir = os.path.join(tempfile.gettempdir(), "verif-harness-" + tag)
+        bdir = os.path.join(hdir, ".build")
+        shutil.rmtree(hdir, ignore_errors=True)
+        shutil.copytree(HARNESS, hdir, ignore=shutil.ignore_patterns("go.mod", "go.sum"))
+    os.makedirs(bdir, exist_ok=True)
+    gosum = os.path.join(hdir, "go.sum")
     try:
         shutil.copyfile(os.path.join(REPO, "go.sum"), gosum)
     except OSError as e:
         raise Infra("cannot copy go.sum: %s" % e)
-    gomod = os.path.join(HARNESS, "go.mod")
-    txt = open(os.path.join(HARNESS, "go.mod.in")).read().replace("@REPO@", REPO)
+    gomod = os.path.join(hdir, "go.mod")
+    txt = open(os.path.join(hdir, "go.mod.in")).read().replace("@REPO@", REPO)
     if not os.path.exists(gomod) or open(gomod).read().split("// ---")[0] != txt.split("// ---")[0]:
         open(gomod, "w").write(txt)
-    outp = os.path.join(BUILD, out)
+    outp = os.path.join(bdir, out)
     t0 = time.time()
-    r = subprocess.run(["go", "build", "-tags", "verif", "-o", outp, pkg], cwd=HARNESS, env=GOENV,
+    r = subprocess.run(["go", "build", "-tags", "verif", "-o", outp, pkg], cwd=hdir, env=GOENV,
                        stdout=subprocess.PIPE, stderr=subprocess.STDOUT, text=True)
     if r.returncode != 0:
         raise Infra("driver build failed:\n" + r.stdout[-4000:])
-    log("[build] driver %s built in %.1fs" % (pkg, time.time() - t0))
+    log("[build] driver %s built from %s in %.1fs" % (pkg, REPO, time.time() - t0))
     return outp
 
 
